@@ -564,8 +564,11 @@ class Model(Object):
         """
         if not hasattr(metabolite_list, "__iter__"):
             metabolite_list = [metabolite_list]
-        # Make sure metabolites exist in model
-        metabolite_list = [x for x in metabolite_list if x.id in self.metabolites]
+        # Make sure metabolites exist in model (a metabolite named twice is removed
+        # once, as for reactions)
+        metabolite_list = list(
+            dict.fromkeys(x for x in metabolite_list if x.id in self.metabolites)
+        )
         for x in metabolite_list:
             x._model = None
 
